@@ -14,6 +14,7 @@ mod c14;
 mod c15;
 mod c16;
 mod c17;
+mod c18;
 mod modgen;
 mod refgraph;
 mod gram;
@@ -53,6 +54,7 @@ fn main() {
                 "C15" => c15::run(&args, &mut rec),
                 "C16" => c16::run(&args, &mut rec),
                 "C17" => c17::run(&args, &mut rec),
+                "C18" => c18::run(&args, &mut rec),
                 "smoke" => smoke::run(&args, &mut rec),
                 "load" => {
                     let path = args.extra.get("file").expect("--file");
